@@ -38,7 +38,10 @@ MutOps(v, other) ==
     [] v.k = "band" ->
          {[Op("set") EXCEPT !.i = 0, !.j = (IF v.b >= 1 /\ v.m.r >= 2 THEN 1 ELSE 0), !.x = 9],
           [Op("fill_band") EXCEPT !.off = (IF v.a >= 1 THEN -1 ELSE 0), !.x = 7],
-          [Op("resize_fill") EXCEPT !.nr = 2, !.i = 0, !.j = 1, !.x = 4]}
+          [Op("resize_fill") EXCEPT !.nr = 2, !.i = 0, !.j = 1, !.x = 4],
+          \* same n and m1 + m2, the split shifted by one (the compact storage keeps its shape)
+          [Op("resize_fill") EXCEPT !.nr = v.m.r, !.i = (IF v.b >= 1 THEN v.a + 1 ELSE IF v.a >= 1 THEN v.a - 1 ELSE v.a),
+                                    !.j = (IF v.b >= 1 THEN v.b - 1 ELSE IF v.a >= 1 THEN v.b + 1 ELSE v.b), !.x = 5]}
          \cup (IF SameShape(v.m, other.m) /\ v.a = other.a /\ v.b = other.b THEN {[Op("add_obj") EXCEPT !.src = 3]} ELSE {})
     [] v.k = "tri" ->
          {[Op("set") EXCEPT !.i = 1, !.j = 0, !.x = 9], Op("transpose_in_place"), [Op("shift") EXCEPT !.s = 2], [Op("resize") EXCEPT !.nr = 2]}
